@@ -1,6 +1,7 @@
 import SqlModel.Pipeline
 import SqlProofs.SplitScript
 import SqlProofs.SplitValue
+import SqlProofs.RegionSplit
 /-!
 # C05 — statements end exactly at top-level semicolons; opaque regions never split
 
@@ -8,7 +9,8 @@ Token-level theorems about the model of `StatementSplitter` (tied to the code by
 exhaustive `_change_splitlevel` table S-CSL).  "Quiet" is the decidable condition under which a statement body
 never shows the splitter a `;` at level ≤ 0 nor a `GO` keyword; every plain statement of the verification grammar
 satisfies it (checked on every generated script by the driver, and proved for the block grammar in C17).
-The character-level half (each opaque region is one token of a value-blind type) is C14.
+The character-level half combines C14 (each opaque region at a scan position is one token of a value-blind, non-Whitespace type) with the
+partition: `region_in_one_statement`, `semicolon_in_region_does_not_split` below.
 -/
 namespace Sql.C05
 
@@ -65,5 +67,79 @@ theorem paren_end_counterexample :
       [tk T.DML "select", tk T.Punctuation "(", tk T.Keyword "case", tk T.Keyword "when", tk T.Name "a", tk T.Keyword "then",
        tk T.Name "b", tk T.Keyword "end", tk T.Punctuation ";", tk T.Name "c", tk T.Punctuation ")"]).toOption.map List.length
       = some 2 := by decide +kernel
+
+/-! ## character level: opaque regions never split
+
+`Region pre post region ty` (SqlProofs/RegionSplit.lean): `region` is one of the nine region kinds of C14 — block comment, hint block
+comment, line comment, hint line comment, `'…'`, `"…"`, `` `…` ``, `´…´`, `$tag$…$tag$` — with that kind's hypotheses on its body and on the
+text before (`pre`) and after (`post`); `ty` is its token type.  `ScanBoundary … p`: the lexer performs a scan step at `p` (C14). -/
+
+/-- the nine region types are not Whitespace types (so a region token is never in the dropped tail) and are value-blind -/
+theorem region_types {pre post region : List Cp} {ty : TType} (hr : Region pre post region ty) :
+    ty.isIn T.Whitespace = false ∧ valueBlind ty = true := hr.ty_facts
+
+/-- **an opaque region lies inside one statement.** For every text `pre ++ region ++ post` with the lexer standing at `|pre|`: one of the
+statements `lexSplit` returns contains the region as a single token, `A` being the statements before it and `l` the tokens of that
+statement before the region token, with `|text of A| + |text of l| = |pre|`.  Whatever the region contains — `;`, `GO`, `END`, openers of
+other regions — ended no statement inside it. -/
+theorem region_in_one_statement (s : Array Cp) (pre region post : List Cp) (ty : TType)
+    (h : s.toList = pre ++ region ++ post) (hreg : Region pre post region ty)
+    (hb : ScanBoundary defaultCfg (defaultCfg.env s) pre.length)
+    (sts : List (List Tok)) (hs : lexSplit s = .ok sts) :
+    ∃ A st B l r, sts = A ++ st :: B ∧ st = l ++ ⟨ty, region⟩ :: r ∧ textLen (A.flatten ++ l) = pre.length :=
+  Sql.region_in_one_statement s pre region post ty h hreg hb sts hs
+
+/-- the same as character offsets in the partition of `C04.statements_partition_text`: the statement starts at or before `|pre|` and ends
+at or after `|pre| + |region|` -/
+theorem region_span_in_statement (s : Array Cp) (pre region post : List Cp) (ty : TType)
+    (h : s.toList = pre ++ region ++ post) (hreg : Region pre post region ty)
+    (hb : ScanBoundary defaultCfg (defaultCfg.env s) pre.length)
+    (sts : List (List Tok)) (hs : lexSplit s = .ok sts) :
+    ∃ A st B, sts = A ++ st :: B ∧ textLen A.flatten ≤ pre.length ∧
+      pre.length + region.length ≤ textLen A.flatten + textLen st :=
+  Sql.region_span_in_statement s pre region post ty h hreg hb sts hs
+
+/-- **the body of a region influences no other token**: same context, two regions of the same kind ending with the same character (all a
+one-character look-behind — `(?<![\w"$])`, `(?<!\w)`, `\b` … , table obligation `rules_lb1` — can see); if the tokens before the region
+are the same in both texts, so are the tokens after it. -/
+theorem region_body_irrelevant (s s' : Array Cp) (pre region region' post : List Cp) (ty : TType)
+    (h : s.toList = pre ++ region ++ post) (h' : s'.toList = pre ++ region' ++ post)
+    (hreg : Region pre post region ty) (hreg' : Region pre post region' ty)
+    (hlast : region.getLast? = region'.getLast?)
+    (ts ts' : List Tok) (hl : lex defaultCfg s = .ok ts) (hl' : lex defaultCfg s' = .ok ts')
+    (before : List Tok) (hb : before <+: ts) (hb' : before <+: ts') (hlen : textLen before = pre.length) :
+    ∃ after, ts = before ++ ⟨ty, region⟩ :: after ∧ ts' = before ++ ⟨ty, region'⟩ :: after :=
+  Sql.region_body_irrelevant s s' pre region region' post ty h h' hreg hreg' hlast ts ts' hl hl' before hb hb' hlen
+
+/-- **a `;` inside a region does not split**: replacing the body of a region by any other body of the same kind (for instance one without
+`;`) leaves the extents of all statements — hence their number — unchanged.  Hypothesis `before`: the tokens before the region are the same
+in both texts; it can fail only when an unterminated construct in `pre` reaches into the region (e.g. a stray `"` before a `'…"…'`), and
+is vacuous for a region at the start of the text (`semicolon_in_leading_region_does_not_split`). -/
+theorem semicolon_in_region_does_not_split (s s' : Array Cp) (pre region region' post : List Cp) (ty : TType)
+    (h : s.toList = pre ++ region ++ post) (h' : s'.toList = pre ++ region' ++ post)
+    (hreg : Region pre post region ty) (hreg' : Region pre post region' ty)
+    (hlast : region.getLast? = region'.getLast?)
+    (ts ts' : List Tok) (hl : lex defaultCfg s = .ok ts) (hl' : lex defaultCfg s' = .ok ts')
+    (before : List Tok) (hb : before <+: ts) (hb' : before <+: ts') (hlen : textLen before = pre.length) :
+    partitionLens (lexSplit s) = partitionLens (lexSplit s') :=
+  Sql.semicolon_in_region_does_not_split s s' pre region region' post ty h h' hreg hreg' hlast ts ts' hl hl' before hb hb' hlen
+
+theorem semicolon_in_leading_region_does_not_split (s s' : Array Cp) (region region' post : List Cp) (ty : TType)
+    (h : s.toList = region ++ post) (h' : s'.toList = region' ++ post)
+    (hreg : Region [] post region ty) (hreg' : Region [] post region' ty)
+    (hlast : region.getLast? = region'.getLast?) :
+    partitionLens (lexSplit s) = partitionLens (lexSplit s') :=
+  Sql.semicolon_in_leading_region_does_not_split s s' region region' post ty h h' hreg hreg' hlast
+
+/-- non-vacuity: `/*a;b*/ x ; y` and `/*ab*/ x ; y` instantiate the leading-region theorem -/
+example : partitionLens (lexSplit #[47, 42, 97, 59, 98, 42, 47, 32, 120, 59, 121]) =
+    partitionLens (lexSplit #[47, 42, 97, 98, 42, 47, 32, 120, 59, 121]) :=
+  semicolon_in_leading_region_does_not_split _ _ ([47, 42] ++ [97, 59, 98] ++ [42, 47]) ([47, 42] ++ [97, 98] ++ [42, 47])
+    [32, 120, 59, 121] T.CommentMultiline rfl rfl
+    (.block [97, 59, 98] (by decide) (by decide) (by decide)) (.block [97, 98] (by decide) (by decide) (by decide)) rfl
+
+/-- and executing the model on the first text: two statements, the comment with its `;` inside the first -/
+example : (lexSplit #[47, 42, 97, 59, 98, 42, 47, 32, 120, 59, 121]).toOption.map (·.map List.length) = some [4, 1] := by
+  decide +kernel
 
 end Sql.C05
